@@ -6,6 +6,7 @@ import (
 	"errors"
 	"fmt"
 	"sort"
+	"strconv"
 	"strings"
 	"time"
 
@@ -56,19 +57,20 @@ type spSend struct {
 	Change bool        `json:"change"`
 }
 
+// TLC's ToJson writes a function whose domain starts at 0 as an object with the numbers as keys
 type spAcctBal struct {
-	Total     []int   `json:"total"`
-	Immature  []int   `json:"immature"`
-	Spendable [][]int `json:"spendable"`
+	Total     []int            `json:"total"`
+	Immature  []int            `json:"immature"`
+	Spendable map[string][]int `json:"spendable"`
 }
 
 type spObs struct {
-	AcctBal     []spAcctBal   `json:"acctBal"`
+	AcctBal     map[string]spAcctBal `json:"acctBal"`
 	Tip         int           `json:"tip"`
 	St          []interface{} `json:"st"`
 	SpentBy     []int         `json:"spentBy"`
 	Spendable   []int         `json:"spendable"`
-	Bal         [][]int       `json:"bal"`
+	Bal         map[string][]int `json:"bal"`
 	Sends       []spSend      `json:"sends"`
 	UnconfSends []int         `json:"unconfSends"`
 	Locked      []int         `json:"locked"`
@@ -194,12 +196,17 @@ func replaySpend(idx int, line []byte, prop string, seed int, root string, rep *
 			return
 		}
 		var exp *spObs
+		var derr error
 		if len(st.Exp) > 0 && st.Exp[0] == '{' {
 			exp = new(spObs)
-			json.Unmarshal(st.Exp, exp)
+			derr = json.Unmarshal(st.Exp, exp)
 		} else if si == len(tr.Steps)-1 && len(tr.Exp) > 0 && tr.Exp[0] == '{' {
 			exp = new(spObs)
-			json.Unmarshal(tr.Exp, exp)
+			derr = json.Unmarshal(tr.Exp, exp)
+		}
+		if derr != nil {
+			rep.AddError("trace %d step %d: expectation does not decode: %v", idx, si, derr)
+			return
 		}
 		if exp != nil {
 			w.observe(exp)
@@ -737,7 +744,11 @@ func (w *spWorld) observe(exp *spObs) {
 			w.add("balance", "spendable outputs (ListUnspent)", got, sorted(exp.Spendable))
 		}
 	}
-	for mc, cs := range exp.Bal {
+	if len(exp.Bal) == 0 || len(exp.AcctBal) == 0 {
+		w.add("harness", "the expectation carries no balances", len(exp.Bal), "minconf 0..Mat+1")
+	}
+	for mcs, cs := range exp.Bal {
+		mc, _ := strconv.Atoi(mcs)
 		bal, err := e.w.CalculateBalance(int32(mc))
 		w.n++
 		if err != nil {
@@ -747,8 +758,10 @@ func (w *spWorld) observe(exp *spObs) {
 		}
 	}
 	// per-account balances (any key scope)
-	for a, ab := range exp.AcctBal {
-		for mc, cs := range ab.Spendable {
+	for as, ab := range exp.AcctBal {
+		a, _ := strconv.Atoi(as)
+		for mcs, cs := range ab.Spendable {
+			mc, _ := strconv.Atoi(mcs)
 			b, err := e.w.CalculateAccountBalances(uint32(a), int32(mc))
 			w.n++
 			what := fmt.Sprintf("CalculateAccountBalances(account %d, minconf %d)", a, mc)
